@@ -45,6 +45,7 @@ PROPS["C19"] = dict(
         R("C19.distance_laws_random", "kad", "TestC19DistanceLawsRandom", 50000, 4000000),
         P("C19.distance_laws_exhaustive", "kad", "TestC19DistanceLawsExhaustive"),
         R("C19.node_list_nearest", "kad", "TestC19NodeInfos", 10000, 640000),
+        R("C19.overlapping_enumerations", "kad", "TestC19Overlap", 6000, 400000),
         F("C19.fuzz_distance_laws", "kad", "FuzzDistanceLaws", 90),
     ],
 )
@@ -59,6 +60,7 @@ PROPS["C18"] = dict(
     subs=[
         R("C18.model", "kad", "TestC18Model", 20000, 400000, steps=40),
         P("C18.exhaustive", "kad", "TestC18Exhaustive"),
+        R("C18.concurrent_quiescent", "kad", "TestC18Concurrent", 400, 40000),
     ],
 )
 
